@@ -117,11 +117,11 @@ func TestC14(t *testing.T) {
 
 func TestC04(t *testing.T) {
 	r := rt.Start(t, "C04")
-	wls := []Workload{wlExhaustion, wlTrafficClean, wlTrafficBroker}
+	wls := []Workload{wlExhaustion, wlTrafficClean, wlTrafficBroker, wlBrokerBurst}
 	runWorkloads(t, r, wls, func(g *GWRun) ([]monitors.V, int) {
 		return monitors.C04(g.Items, toPredef(g.Cfg.Predefined))
 	})
-	r.Finish("workload exhaustion: one session per predefined layout drives 65534 - |predefined| allocations with non-wildcard SUBSCRIBEs (lock-step every 4096), then 60 further REGISTER / SUBSCRIBE / broker-PUBLISH events of new names interleaved with re-registrations of old names; plus traffic-clean/broker. Oracle C04: the relation id -> name over everything the gateway handed out (REGACK, SUBACK, its own REGISTER) is a function, ids in 1..0xFFFE, never a predefined ID visible to the client, and once an allocation was refused every later new name is refused too. "+trafficRule, nil)
+	r.Finish("workload exhaustion: one session per predefined layout drives 65534 - |predefined| allocations with non-wildcard SUBSCRIBEs (lock-step every 4096), then 60 further REGISTER / SUBSCRIBE / broker-PUBLISH events of new names interleaved with re-registrations of old names; plus traffic-clean/broker and broker-burst. Oracle C04: the relation id -> name over everything the gateway handed out (REGACK, SUBACK, its own REGISTER) is a function, ids in 1..0xFFFE, never a predefined ID visible to the client, and once an allocation was refused every later new name is refused too. "+trafficRule, nil)
 }
 
 var _ = mqttref.CONNECT
